@@ -256,7 +256,7 @@ def gen_deck(rng, force=None):
     transforms = {}
     lat_trcl = None
     if force.get('lat_trcl', rng.random() < 0.35) and \
-            (fill_tr is None or force.get('both_tr')):
+            (fill_tr is None or force.get('both_tr', rng.random() < 0.6)):
         tr = deckmod.random_tr(rng, star=False)
         mode = rng.choice(['num', 'num', 'inline']) if tr['B'] is not None \
             else rng.choice(['num', 'inline'])
@@ -337,6 +337,7 @@ def gen_deck(rng, force=None):
             'fill_tr': fill_tr is not None,
             'fill_rot': fill_tr is not None and fill_tr['B'] is not None,
             'lat_trcl': lat_trcl is not None, 'cont_tr': cont_tr is not None,
+            'both_tr': lat_trcl is not None and fill_tr is not None,
             'degenerate_low_dim': degenerate_low_dim, 'nested': nested,
             'n_elements': len(array) if not homogeneous else
             int(np.prod([hi - lo + 1 for lo, hi in ranges]))}
@@ -416,23 +417,55 @@ def break_deck(rng, deck, meta):
 # ---------------------------------------------------------------------------
 
 class LatRef(mcnpref.Reference):
-    '''mcnpref.Reference.locate_lattice completes a 1-D/2-D lattice basis with
-    coordinate unit vectors that are not orthogonal to the lattice vectors, so
-    its first guess of the element is wrong for points far along the infinite
-    directions of a rotated/skew lattice ("point in no lattice element").
-    Same semantics here, with the basis completed orthogonally and the
-    neighbourhood of the guess searched.'''
+    '''mcnpref.Reference (with the orthogonal basis completion, applied to the
+    shared file) plus the one case it leaves open: a lattice cell with BOTH a
+    TRCL and a fill transformation.  Rule (the one the shared reference uses
+    for ordinary filled cells, `locate`: "fill transformation if given, else
+    TRCL", and the one upstream validated against MCNP with the decks
+    trcl_filltr.imcnp / trcl_filltr_lat.imcnp): TRCL moves the lattice cell
+    (its planes, hence the elements and their translations M.a_i), the filling
+    universe is placed by the fill transformation alone and then translated
+    to the element.'''
 
     def locate_lattice(self, cell, p, depth):
-        vecs = [np.array(v, float) for v in cell['lat_vectors']]
         tr = self.tr_of(cell.get('trcl'))
         fill = cell['fill']
+        ftr = self.tr_of(fill.get('tr'))
+        if tr is None or ftr is None:
+            return super().locate_lattice(cell, p, depth)
+        # elements: as for the cell with TRCL only
+        probe = dict(cell)
+        probe['fill'] = dict(fill, tr=None)
+        probe['u'] = cell.get('u', 0)
+        chain = _ElementOnly(self).element_of(probe, p)
+        link, univ, shift = chain
+        if univ is None:
+            return [link, None]
+        if univ == cell.get('u', 0):
+            return [link]
+        p = np.asarray(p, float)
+        moved = mcnpref.to_main(tr, shift) - mcnpref.to_main(tr, np.zeros(3))
+        q = mcnpref.to_aux(ftr, p - moved)
+        sub = self.locate(q, univ, depth + 1)
+        if sub is None:
+            return [link, None]
+        return [link] + sub
+
+
+class _ElementOnly:
+    '''Element search of a lattice cell with a TRCL (same steps as
+    mcnpref.Reference.locate_lattice, stopping at the fill universe).'''
+
+    def __init__(self, ref):
+        self.ref = ref
+
+    def element_of(self, cell, p):
+        ref = self.ref
+        vecs = [np.array(v, float) for v in cell['lat_vectors']]
+        tr = ref.tr_of(cell.get('trcl'))
+        fill = cell['fill']
         ranges = fill['ranges']
-        if tr is not None and fill.get('tr') is not None:
-            raise mcnpref.Ambiguous('lattice with both TRCL and a fill '
-                                    'transformation')
-        cols = list(vecs) + complement_basis(vecs)
-        basis = np.array(cols).T
+        basis = np.array(list(vecs) + complement_basis(vecs)).T
         p_loc = mcnpref.to_aux(tr, p) if tr else np.asarray(p, float)
         centre = np.array(cell['lat_centre'], float)
         coords = np.linalg.solve(basis, p_loc - centre)
@@ -442,7 +475,7 @@ class LatRef(mcnpref.Reference):
             idx = [g + dlt - 1 for g, dlt in zip(guess, delta)]
             shift = sum(i * v for i, v in zip(idx, vecs))
             q = p_loc - shift
-            if self.eval_expr(cell['expr'], q, q):
+            if ref.eval_expr(cell['expr'], q, q):
                 if found is not None:
                     raise mcnpref.Ambiguous('lattice elements overlap')
                 found = idx
@@ -453,7 +486,7 @@ class LatRef(mcnpref.Reference):
         link = (cell['id'], tuple(idx3))
         for i, (lo, hi) in zip(idx3, full_ranges):
             if i < lo or i > hi:
-                return [link, None]
+                return link, None, None
         dims = [hi - lo + 1 for lo, hi in full_ranges]
         flat = ((idx3[0] - full_ranges[0][0])
                 + dims[0] * ((idx3[1] - full_ranges[1][0])
@@ -461,18 +494,9 @@ class LatRef(mcnpref.Reference):
         univ = fill['array'][0] if fill.get('homogeneous') \
             else fill['array'][flat]
         if univ == 0:
-            return [link, None]
-        if univ == cell.get('u', 0):
-            return [link]
+            return link, None, None
         shift = sum(i * v for i, v in zip(found, vecs))
-        ftr = self.tr_of(fill.get('tr'))
-        q = p_loc - shift
-        if ftr:
-            q = mcnpref.to_aux(ftr, q)
-        sub = self.locate(q, univ, depth + 1)
-        if sub is None:
-            return [link, None]
-        return [link] + sub
+        return link, univ, shift
 
 
 # ---------------------------------------------------------------------------
